@@ -391,7 +391,8 @@ class WaitLoop:
     yields: list[ast.AST]
 
 
-def zero_delay_wait_loops(prog: Program, fn: FunctionInfo) -> list[WaitLoop]:
+def zero_delay_wait_loops(prog: Program, fn: FunctionInfo, may_be_zero=None) -> list[WaitLoop]:
+    """``may_be_zero(expr)``: optional predicate for yielded delays that are not the constant 0 but can evaluate to it"""
     out = []
     for st in walk_stmts(fn.node.body):
         if not isinstance(st, ast.While):
@@ -399,7 +400,7 @@ def zero_delay_wait_loops(prog: Program, fn: FunctionInfo) -> list[WaitLoop]:
         ys = [n for b in st.body for n in walk_scope(b) if isinstance(n, (ast.Yield, ast.YieldFrom))]
         if not ys:
             continue
-        if not all(isinstance(y, ast.Yield) and _is_zero(y.value) for y in ys):
+        if not all(isinstance(y, ast.Yield) and (_is_zero(y.value) or (may_be_zero is not None and y.value is not None and may_be_zero(y.value))) for y in ys):
             continue
         # condition paths written inside the body? then the loop makes its own progress
         cond_paths = {p for n in walk_scope(st.test) for p in [path_of(n)] if p and isinstance(n, (ast.Name, ast.Attribute))}
